@@ -19,6 +19,7 @@ extern size_t __sanitizer_get_current_allocated_bytes(void);
  * (found through the include path of the tree under test) with that one check switched off
  * (`link_extra = -fno-sanitize=vptr` in the property module); everything else stays sanitised. */
 #include "array.cpp"
+#include "io_buffer.cpp"   /* same reason: io::buffer reads the C buffer through a C++ member call */
 #include "types.h"
 #include "array.h"
 
@@ -95,6 +96,7 @@ struct H
 	virtual void *append(size_t, const void *) { return 0; }
 	virtual bool from_slice(const H &, size_t, size_t) { return false; }
 	virtual int setv(const value &) { return -1; }
+	virtual int ebuf(size_t) { return -2; }
 	/* typed */
 	virtual int tinsert(long, const uint8_t *) { return -1; }
 	virtual int tset(long, const uint8_t *) { return -1; }
@@ -131,6 +133,8 @@ struct HA : H
 	void *insert(size_t o, size_t n, const void *d) { return a.insert(o, n, d); }
 	void *append(size_t n, const void *d) { return a.append(n, d); }
 	int setv(const value &v) { return a.set(v); }
+	/* an io::buffer over the array (a further handle on the same data) consumes n bytes and compacts itself */
+	int ebuf(size_t n) { io::buffer b(a); int r = b.shift(n) ? 1 : 0; return r | (b.shift(0) ? 2 : 0); }
 	bool from_slice(const H &o, size_t off, size_t len)
 	{
 		slice sl(static_cast<const HA &>(o).a);
@@ -520,6 +524,11 @@ int main(void)
 				free(txt);
 				if (r < 0) result("refused", drv_errname(r));
 				else { char ret[16]; snprintf(ret, sizeof(ret), "%d", r); result("ok", ret); }
+			}
+			else if (!strcmp(op, "ebuf") && drv_nw == 4) {
+				if (drv_parse_nat(drv_w[3], &a) || a > 100000) BAD;
+				char ret[16]; snprintf(ret, sizeof(ret), "%d", hs[h]->ebuf(a));
+				result("ok", ret);
 			}
 			else if (!strcmp(op, "setslice") && drv_nw == 6) {     /* h = slice(h2) restricted to [off, off+len) */
 				if ((h2 = handle_arg(drv_w[3])) < 0 || drv_parse_nat(drv_w[4], &a) || drv_parse_nat(drv_w[5], &b)) BAD;
